@@ -103,6 +103,31 @@ theorem C15_sources_present (E : Env) (p0 p : Parser) (reqs : List LinkReq) (h :
   rw [linkOk_congr E l c0 cfg (fun s hs' => (apply_sources_stable E p.links c0 cfg ha hST hTT l hl s hs').symm)] at hok
   exact linkOk_present E l cfg hok hsub
 
+/-! ## ordered link sets: the guard `nonNested` weakened to what the sequential pass needs -/
+
+/-- The invariant under the weaker, order-aware guard `fwdOK` (decidable; Lemmas/LinksHist): no link writes into its own
+    sources and no link registered LATER writes into / above the target or the sources of a link registered EARLIER.
+    Nested keys are allowed when the write comes first: `a --> g.p` registered before `fsum(g) --> b`, or before
+    `g --> w`.  Then, in every successfully parsed configuration, every link has `target = F(FINAL sources)` at every
+    place that holds the target.  (`nonNested` implies `fwdOK` for accepted link sets: `C15_nonNested_is_ordered`;
+    the other registration order is the open finding, `C15_nested_chain_counterexample`.) -/
+theorem C15_invariant_ordered (E : Env) (p0 p : Parser) (reqs : List LinkReq) (h : Accepted p0 reqs p)
+    (ho : fwdOK p.links = true)
+    (inputs : List Input) (cfg : KV) (hp : parse E p inputs = .ok cfg) :
+    ∀ l ∈ p.links, ∀ args, argsOf cfg l.sources = some args →
+      ∃ v, linkValue E l args = .ok v ∧ (∀ w ∈ targetValues l cfg, w = v) ∧
+        (l.kind = .plain → getK l.target cfg = some v) := by
+  obtain ⟨c0, _, hc⟩ := parse_ok E p inputs cfg hp
+  obtain ⟨ha, _, _⟩ := parseCommon_ok E p c0 cfg hc
+  intro l hl args hargs
+  exact apply_inv_fwd E p.links c0 cfg ha ho l hl (h.inv.wf l hl).1 args hargs
+
+/-- the new guard is weaker: every accepted link set without nested keys is ordered, whatever the registration order -/
+theorem C15_nonNested_is_ordered (p0 p : Parser) (reqs : List LinkReq) (h : Accepted p0 reqs p)
+    (hn : nonNested p.links = true) : fwdOK p.links = true := by
+  obtain ⟨hST, hTT⟩ := indep_of_unchained p.links h.inv.noChain h.inv.noSelf hn
+  exact fwdOK_of_indep p.links hST hTT
+
 /-- One pass suffices: (1) the parsed configuration is a fixed point of the pass; (2) the pass in any other order
     of the links succeeds as well, leaves every key that diverges from the targets as it was and puts the same
     value at every place of every target (each link's value is determined by the sources as they stood before the
@@ -260,7 +285,7 @@ theorem C15_chain_check_all_sources (p : Parser) (srcs : List Key) (co : List Bo
     untouched; (2) in every successfully parsed configuration every item of the list that has the parameter holds
     the value computed from the final sources. -/
 theorem C15_list_target_all_items (E : Env) (p0 p : Parser) (reqs : List LinkReq) (h : Accepted p0 reqs p)
-    (hn : nonNested p.links = true) (l : Link) (hl : l ∈ p.links) (n : Nat) (hk : l.kind = .initArg n) :
+    (hn : fwdOK p.links = true) (l : Link) (hl : l ∈ p.links) (n : Nat) (hk : l.kind = .initArg n) :
     (∀ (v : V) (cfg : KV) (items : List V), getK (l.target.take n) cfg = some (.lst items) →
       (∃ kvs, V.ns kvs ∈ items ∧ (getK (l.target.drop n) kvs).isSome = true) →
       getK (l.target.take n) (setTargetValue l v cfg) = some (.lst (items.map (itemSet (l.target.drop n) v)))) ∧
@@ -270,7 +295,7 @@ theorem C15_list_target_all_items (E : Env) (p0 p : Parser) (reqs : List LinkReq
         ∀ kvs, V.ns kvs ∈ items → ∀ w, getK (l.target.drop n) kvs = some w → w = v) := by
   refine ⟨fun v cfg items hg hany => setTargetValue_list l n v cfg items hk hg hany, ?_⟩
   intro inputs cfg items args hp hg hargs
-  obtain ⟨v, hv, hw, _⟩ := C15_invariant E p0 p reqs h hn inputs cfg hp l hl args hargs
+  obtain ⟨v, hv, hw, _⟩ := C15_invariant_ordered E p0 p reqs h hn inputs cfg hp l hl args hargs
   refine ⟨v, hv, fun kvs hm w hgw => hw w ?_⟩
   rw [targetValues_list l n cfg items hk hg]
   exact mem_itemValues _ kvs w items hm hgw
@@ -286,7 +311,7 @@ theorem C15_list_target_all_items (E : Env) (p0 p : Parser) (reqs : List LinkReq
     source's final value itself (also when that value is a namespace: a group, a class spec).  For `init_args`
     targets the same is the `targetValues` clause of `C15_invariant`. -/
 theorem C15_target_replaced_not_merged (E : Env) (p0 p : Parser) (reqs : List LinkReq) (h : Accepted p0 reqs p)
-    (hn : nonNested p.links = true) (l : Link) (hl : l ∈ p.links) (hk : l.kind = .plain) :
+    (hn : fwdOK p.links = true) (l : Link) (hl : l ∈ p.links) (hk : l.kind = .plain) :
     (∀ (v : V) (old : KV), getK l.target (setTargetValue l v old) = some v ∧
       ∀ r, r ≠ [] → getK (l.target ++ r) (setTargetValue l v old) =
         match v with
@@ -312,7 +337,7 @@ theorem C15_target_replaced_not_merged (E : Env) (p0 p : Parser) (reqs : List Li
   · have hg := (getK_setTargetValue_target l v old).2 hk hne
     exact ⟨hg, hbelow _ v hg⟩
   · intro inputs cfg args hp hargs
-    obtain ⟨v, hv, _, hpl⟩ := C15_invariant E p0 p reqs h hn inputs cfg hp l hl args hargs
+    obtain ⟨v, hv, _, hpl⟩ := C15_invariant_ordered E p0 p reqs h hn inputs cfg hp l hl args hargs
     refine ⟨v, hv, hpl hk, hbelow cfg v (hpl hk), ?_⟩
     intro s x hfn hsrc hco hgx
     rw [hpl hk]
@@ -585,30 +610,7 @@ theorem C15_code_redirect_and_strip_filter :
     stripFilter = ["isinstance(a, ActionLink)", "isinstance(a, ActionTypeHint) and hasattr(a, 'sub_add_kwargs')"] := by decide
 
 
-/-! ## ordered link sets: the guard `nonNested` weakened to what the sequential pass needs -/
-
-/-- The invariant under the weaker, order-aware guard `fwdOK` (decidable; Lemmas/LinksHist): no link writes into its own
-    sources and no link registered LATER writes into / above the target or the sources of a link registered EARLIER.
-    Nested keys are allowed when the write comes first: `a --> g.p` registered before `fsum(g) --> b`, or before
-    `g --> w`.  Then, in every successfully parsed configuration, every link has `target = F(FINAL sources)` at every
-    place that holds the target.  (`nonNested` implies `fwdOK` for accepted link sets: `C15_nonNested_is_ordered`;
-    the other registration order is the open finding, `C15_nested_chain_counterexample`.) -/
-theorem C15_invariant_ordered (E : Env) (p0 p : Parser) (reqs : List LinkReq) (h : Accepted p0 reqs p)
-    (ho : fwdOK p.links = true)
-    (inputs : List Input) (cfg : KV) (hp : parse E p inputs = .ok cfg) :
-    ∀ l ∈ p.links, ∀ args, argsOf cfg l.sources = some args →
-      ∃ v, linkValue E l args = .ok v ∧ (∀ w ∈ targetValues l cfg, w = v) ∧
-        (l.kind = .plain → getK l.target cfg = some v) := by
-  obtain ⟨c0, _, hc⟩ := parse_ok E p inputs cfg hp
-  obtain ⟨ha, _, _⟩ := parseCommon_ok E p c0 cfg hc
-  intro l hl args hargs
-  exact apply_inv_fwd E p.links c0 cfg ha ho l hl (h.inv.wf l hl).1 args hargs
-
-/-- the new guard is weaker: every accepted link set without nested keys is ordered, whatever the registration order -/
-theorem C15_nonNested_is_ordered (p0 p : Parser) (reqs : List LinkReq) (h : Accepted p0 reqs p)
-    (hn : nonNested p.links = true) : fwdOK p.links = true := by
-  obtain ⟨hST, hTT⟩ := indep_of_unchained p.links h.inv.noChain h.inv.noSelf hn
-  exact fwdOK_of_indep p.links hST hTT
+/-! ### ordered link sets: witnesses -/
 
 /-- the two links of `C15_nested_chain_counterexample` registered in the OTHER order (`a --> g.p` first, then
     `fsum(g) --> b`): accepted, nested (`nonNested` fails), ordered (`fwdOK` holds), and `--a=100` gives `g.p = 100`,
@@ -725,6 +727,87 @@ example : Fresh p0Hist ∧
     acceptedReqs p0Hist histW = [⟨[key "w"], [], key "t", some 0⟩, ⟨[key "a"], [], key "b", some 1⟩] ∧
     nonNested (stateAfter EsW p0Hist histW).links = true ∧ fwdOK (stateAfter EsW p0Hist histW).links = true :=
   ⟨⟨rfl, by decide, by decide, by decide, by decide⟩, rfl, rfl, by decide, by decide⟩
+
+/-! ## the open findings as decidable classes: outside the class the full statement holds -/
+
+/-- the class of `C15-list-item-target-in-dump`, exactly: the dest of an `init_args` target holds a LIST in which some
+    namespace item has the parameter -/
+def listHeld (l : Link) (cfg : KV) : Bool :=
+  match l.kind with
+  | .plain => false
+  | .initArg n =>
+    match getK (l.target.take n) cfg with
+    | some (.lst items) => anyHas (l.target.drop n) items
+    | _ => false
+
+/-- Outside that class the full statement of "the target does not appear in dumps" holds: no place holds the target
+    after the strip (also when the dest holds a list, none of whose items has the parameter).  Inside the class it
+    fails: `C15_list_item_target_in_dump`. -/
+theorem C15_not_in_dump_exact (p0 p : Parser) (reqs : List LinkReq) (h : Accepted p0 reqs p) (cfg : KV) :
+    ∀ l ∈ p.links, listHeld l cfg = false → targetValues l (dump p cfg) = [] := by
+  intro l hl hh
+  have hgone := getK_strip_target p h.inv cfg l hl
+  unfold dump
+  cases hk : l.kind with
+  | plain => rw [targetValues_plain _ _ hk, hgone]; rfl
+  | initArg n =>
+    cases hd : getK (l.target.take n) (stripLinkTargetKeys p cfg) with
+    | none => rw [targetValues_path l n _ hk (by intro items hg; rw [hd] at hg; cases hg), hgone]; rfl
+    | some v =>
+      by_cases hl' : ∃ items, v = .lst items
+      · obtain ⟨items, rfl⟩ := hl'
+        have h0 := getK_delKeys_leaf (stripKeys p) _ cfg _ (by intro sub e; cases e) hd
+        rw [targetValues_list l n _ items hk hd]
+        apply itemValues_of_not_anyHas
+        simp only [listHeld, hk, h0] at hh
+        exact hh
+      · rw [targetValues_path l n _ hk (by intro items hg; rw [hd] at hg; cases hg; exact hl' ⟨_, rfl⟩), hgone]; rfl
+
+/-- the class of `C15-skipped-link-target-dropped`, exactly: the link is skipped (a subclass-typed source is absent) while
+    some place holds a value for its target -/
+def skippedHolding (l : Link) (cfg : KV) : Bool := (argsOf cfg l.sources).isNone && !(targetValues l cfg).isEmpty
+
+/-- Outside that class re-parsing the dump loses nothing of the link: every value the configuration held for the target
+    is the value every place of the target holds after the re-parse (a link that is skipped held nothing).  Inside
+    the class it fails: `C15_skipped_link_target_dropped`. -/
+theorem C15_reparse_exact (E : Env) (p0 p : Parser) (reqs : List LinkReq) (h : Accepted p0 reqs p)
+    (hn : nonNested p.links = true)
+    (inputs : List Input) (cfg : KV) (hp : parse E p inputs = .ok cfg) (load : KV → KV)
+    (hload : ∀ k, (∀ l ∈ p.links, diverges l.target k = true) → getK k (load (dump p cfg)) = getK k cfg) :
+    ∃ cfg2, applyParsingLinks E p.links (load (dump p cfg)) = .ok cfg2 ∧
+      ∀ l ∈ p.links, skippedHolding l cfg = false →
+        (∀ w ∈ targetValues l cfg, ∀ w2 ∈ targetValues l cfg2, w2 = w) ∧
+        ((argsOf cfg l.sources).isSome = true → l.kind = .plain → getK l.target cfg2 = getK l.target cfg) := by
+  obtain ⟨cfg2, h2, _, hv, _⟩ := C15_reparse_reconstructs E p0 p reqs h hn inputs cfg hp load hload
+  refine ⟨cfg2, h2, fun l hl hs => ?_⟩
+  cases ha : argsOf cfg l.sources with
+  | some args =>
+    obtain ⟨v, _, hw1, hw2, hpl⟩ := hv l hl args ha
+    exact ⟨fun w hw w2 hw2' => (hw2 w2 hw2').trans (hw1 w hw).symm, fun _ hk => hpl hk⟩
+  | none =>
+    simp only [skippedHolding, ha, Option.isNone_none, Bool.true_and, Bool.not_eq_false', List.isEmpty_iff] at hs
+    rw [hs]
+    exact ⟨fun w hw => (by cases hw), fun hc => (by cases hc)⟩
+
+/-! ### C15-skipped-link-target-dropped -/
+
+def p0Skip : Parser := { actions := [⟨key "opt", .subclass⟩, arg (key "b")], required := [], links := [] }
+def reqsSkip : List LinkReq := [⟨[key3 "opt" "init_args" "k"], [], key "b", .none⟩]
+def lSkip : Link := ⟨[⟨key3 "opt" "init_args" "k", true, false⟩], key "b", .none, .plain⟩
+
+/-- `link_arguments("opt.init_args.k", "b")` with `opt` a class argument that is not given: the link is skipped, `b: 9`
+    from a config stays in the parsed configuration, `dump` strips it and the re-parse of the dump has no `b` -/
+theorem C15_skipped_link_target_dropped :
+    addLinks p0Skip reqsSkip = .ok (parserOf p0Skip reqsSkip) ∧ (parserOf p0Skip reqsSkip).links = [lSkip] ∧
+    parse Ew (parserOf p0Skip reqsSkip) [⟨.config, key "b", .atom 9⟩] = .ok [(sk "b", .atom 9)] ∧
+    skippedHolding lSkip [(sk "b", .atom 9)] = true ∧
+    dump (parserOf p0Skip reqsSkip) [(sk "b", .atom 9)] = [] ∧
+    reparse Ew (parserOf p0Skip reqsSkip) id [] = .ok [] :=
+  ⟨rfl, rfl, rfl, rfl, rfl, rfl⟩
+
+/-- the list-item witness lies in its class; the non-vacuity parser is outside both classes -/
+example : listHeld lOpts cfgList = true ∧ listHeld lOpt cfgList = false ∧
+    skippedHolding lOpt cfgList = false := ⟨rfl, rfl, rfl⟩
 
 /-! ## the statements of the functions the model transcribes (regenerated from `_link_arguments.py`)
 
